@@ -1009,6 +1009,12 @@ def rule_r11(repo, run):
     # every C helper a bind(C) interface names is written to the C utility file (C05.R14)
     from checks import c05
     import_rules(run, R, c05, repo, {"C05.R14"}, only=lambda c: c.endswith(":shared-helpers-per-module"))
+    # ... and a C function that an interface binds to is written: the C flag of a container follows its members' (C15.R6)
+    from checks import c15
+    import_rules(run, R, c15, repo, {"C15.R6"}, only=lambda c: c.startswith("ast.WrapFlags"))
+    # the abstract interface a procedure dummy argument names is the one of *its* function pointer (C08.R8)
+    from checks import c08
+    import_rules(run, R, c08, repo, {"C08.R8"})
 
 
 def rule_r12(repo, run):
@@ -1249,6 +1255,44 @@ def rule_r15(repo, run):
                   % ast.unparse(v), wc.loc(a))
 
 
+def rule_r16(repo, run):
+    R = run.rule("C04.R16", "the predicates of a declaration that count levels of indirection agree with what they are documented to "
+                            "count: is_pointer `*`, is_reference `&`, is_indirect and is_array both - the bind(C) interface "
+                            "chooses between `type(C_PTR)` and a typed dummy argument by these counts, the C prototype is "
+                            "written from the same declarator")
+    dm = repo.module("declast")
+    n = 0
+    for name in ("is_pointer", "is_reference", "is_indirect", "is_array"):
+        fn = dm.func("Declaration.%s" % name)
+        doc = (ast.get_docstring(fn) or "").lower()
+        wants = set()
+        if "pointer" in doc:
+            wants.add("*")
+        if "reference" in doc:
+            wants.add("&")
+        counted = set()
+        for lp in ast.walk(fn):
+            if not (isinstance(lp, ast.For) and "pointer" in ast.unparse(lp.iter)):
+                continue
+            for i_ in ast.walk(lp):
+                if isinstance(i_, ast.If):
+                    t = i_.test
+                    if isinstance(t, ast.Compare) and isinstance(t.ops[0], ast.Eq) and pyflow.const_str(t.comparators[0]):
+                        counted.add(pyflow.const_str(t.comparators[0]))
+                    elif isinstance(t, ast.Compare) and isinstance(t.ops[0], ast.In):
+                        counted |= set(pyflow.const_str(e) for e in getattr(t.comparators[0], "elts", []) if pyflow.const_str(e))
+                    elif isinstance(t, ast.Attribute) and t.attr == "ptr":
+                        counted |= {"*", "&"}
+        if not wants or not counted:
+            raise AnalysisError("C04.R16: Declaration.%s: documentation / counting loop not recognised" % name)
+        n += 1
+        run.check(R, "declast.Declaration.%s:counts" % name, counted == wants,
+                  "%s is documented to count %s and counts %s: `T *&p` is then declared with one level of indirection less in the "
+                  "bind(C) interface (a typed dummy argument) than the C wrapper's `T **p` has" % (name, sorted(wants), sorted(counted)),
+                  dm.loc(fn))
+    run.floor(R, "indirection predicates", n, 4)
+
+
 def run(repo, run, tier):
     tables.check_model_assumptions(repo)
     table = tables.StatementTable(repo, "statements", "fc_statements")
@@ -1269,6 +1313,7 @@ def run(repo, run, tier):
     rule_r13(repo, run)
     rule_r14(repo, run)
     rule_r15(repo, run)
+    rule_r16(repo, run)
     run.assumptions.extend([
         "LP64 / ISO_C_BINDING interoperability table in sa/interop.py",
         "table semantics model (base/mixin/language selection) mirrors statements.update_stmt_tree; "
